@@ -34,6 +34,9 @@ def check(prop, tier, seed):
     for i, c in enumerate(confs):
         steps = [dict(a="send", ty="V"), dict(a="recv", ty="1"), dict(a="send", ty="V"), dict(a="recv", ty="D"),
                  dict(a="recv", ty="1"), dict(a="send", ty="V")]
+        if i % 5 == 3:
+            steps = [dict(a="send", ty="V"), dict(a="send", ty="V"), dict(a="recv", ty="1"), dict(a="recv", ty="2"), dict(a="send", ty="V"),
+                     dict(a="recv", ty="2"), dict(a="send", ty="V")]
         if i % 3 == 1:
             steps = [dict(a="recv", ty="1"), dict(a="recv", ty="0"), dict(a="send", ty="V"), dict(a="send", ty="V"), dict(a="send", ty="V")]
         scns.append(dict(id="d%d" % i, role="acceptor" if i % 2 == 0 else "initiator", handlers=c["handlers"],
